@@ -40,20 +40,26 @@ def swapI (s : List α) (i j : Int) : Option (List α) :=
 
 /-! ## Chunk -/
 
-/-- the `(start, end)` pairs of the slice expressions `s[start:end]` that `Chunk` evaluates -/
+/-- the length `Chunk` hands to `make([][]T, n)`: `n := 0; if len(s) > 0 { n = (len(s)-1)/chunkSize + 1 }` -/
+def chunkN (len size : Int) : Int :=
+  chunkMake (if chunkNonEmpty len then chunkCountNonEmpty len size else chunkCountEmpty)
+
+/-- the `(start, end)` pairs of the slice expressions `s[start:end]` that `Chunk` evaluates:
+`start := i * chunkSize; end := len(s); if len(s)-start > chunkSize { end = start + chunkSize }`.
+All arithmetic is the generated 64-bit (`wrap64`) arithmetic. -/
 def chunkRanges (len size : Int) : List (Int × Int) :=
-  (List.range (chunkCount len size).toNat).map fun (i : Nat) =>
+  (List.range (chunkN len size).toNat).map fun (i : Nat) =>
     let i : Int := i
     let start := chunkStart i size
-    let e := chunkEnd i size
-    let e := if chunkClip e len then chunkClipVal len else e
+    let e := chunkEndLast len
+    let e := if chunkFull len start size then chunkEndFull start size else e
     (chunkLo start e, chunkHi start e)
 
 /-- `xslices.Chunk` on a slice of length `len`: the chunks as index ranges of `s`, `none` = panic. -/
 def chunk (len size : Int) : Option (List (Int × Int)) :=
   if chunkPanics size && chunkGuardPanics then none
-  else if size = 0 then none                    -- integer division by zero
-  else if chunkCount len size < 0 then none     -- make with a negative length
+  else if chunkNonEmpty len && decide (size = 0) then none   -- integer division by zero
+  else if chunkN len size < 0 then none                      -- make with a negative length
   else if (chunkRanges len size).all (fun r => sliceOk r.1 r.2 len) then some (chunkRanges len size)
   else none
 
